@@ -266,7 +266,7 @@ class CaseGen:
 def gen_cases(ctx, reg):
     cg = CaseGen(ctx, reg)
     quick = ctx.tier == "quick"
-    cases = corpus_cases("C07")
+    cases = corpus_cases("C07") + option_cases()
     mul = 1 if quick else 8
     for _ in range(650 * mul):
         cases.append(cg.make("random"))
@@ -306,6 +306,43 @@ def gen_cases(ctx, reg):
     for i, c in enumerate(cases):
         c["id"] = i + 1
     return cases
+
+
+def option_cases():
+    """every codec option, on either side, with values that make it observable: a long, a real, a list, a map and a
+    struct decoded into interface{} (at top level and nested in a map)"""
+    S = T("string")
+    inner = {"t": Reg("Inner"), "v": {"X": "1", "Y": hx(b"y")}}
+    parts = [("n", {"t": T("int64"), "v": str(2 ** 40)}), ("f", {"t": T("float64"), "v": iogen.f64bits(1.5)}),
+             ("l", {"t": Slice(T("int")), "v": ["1", "2"]}), ("m", {"t": Map(S, T("int")), "v": [[hx(b"a"), "1"]]}),
+             ("s", inner), ("u", {"t": T("uint32"), "v": str(2 ** 31 + 5)})]
+    composite = {"t": Map(S, IFACE), "v": [[hx(k.encode()), v] for k, v in parts]}
+    tops = [v for _, v in parts] + [composite]
+    out = []
+    fields = [("long", range(5)), ("real", range(3)), ("map", range(2)), ("struct", range(2)), ("list", range(2))]
+    for side in ("copts", "sopts"):
+        for field, values in fields:
+            for val in values:
+                for simple in (False, True):
+                    co = dict(opt_combo(0), simple=simple)
+                    so = dict(opt_combo(0), simple=simple, debug=False)
+                    (co if side == "copts" else so)[field] = val
+                    n = len(tops)
+                    c = {"family": "codec-options", "codec": "hprose", "copts": co, "sopts": so, "types": [IFACE],
+                         "methods": [{"id": 1, "name": hx(b"opt"), "missing": False, "ctx": False, "params": [0] * n,
+                                      "variadic": False, "velem": None, "results": [-1] * n, "err": True}],
+                         "call": hx(b"opt"), "args": [{"t": IFACE, "v": json.loads(json.dumps(v))} for v in tops],
+                         "want": [0] * n,
+                         "hdrs": [{"k": hx(b"h"), "v": {"t": IFACE, "v": json.loads(json.dumps(composite))}}],
+                         "rhdrs": [{"k": hx(b"rh"), "v": {"t": IFACE, "v": json.loads(json.dumps(composite))}}],
+                         "res": {"kind": "values", "values": [{"t": IFACE, "v": json.loads(json.dumps(v))} for v in tops], "msg": ""},
+                         "rtypes": [-1] * n, "rt_default": False}
+                    out.append(c)
+                    # one declared interface{} (raw Invoke): the whole result list is one value
+                    c2 = json.loads(json.dumps(c))
+                    c2["rtypes"], c2["rt_default"] = None, True
+                    out.append(c2)
+    return out
 
 
 def corpus_cases(pid):
@@ -501,6 +538,12 @@ def property_oracle(c, o):
                     got = dict((e["k"], e["v"]) for e in dec["hdrs"]).get(c["hdrs"][i]["k"])
                     if got != orc["v"]:
                         out.append(("header-value-differs", "header %s: %s" % (c["hdrs"][i]["k"], d[:160])))
+            if c["codec"] == "hprose":
+                gs = dict((e["k"], e["v"]) for e in (dec.get("hdr_sigs") or []))
+                for e in (o.get("or_hdr_sigs") or []):
+                    if e["k"] in gs and gs[e["k"]] != e["v"]:
+                        out.append(("header-dynamic-type-differs-from-the-service-codec-options",
+                                    "request header %s was decoded as %s; with the service codec's options it is %s" % (e["k"], gs[e["k"]][:120], e["v"][:120])))
             if len(dec.get("args") or []) != len(c["args"]):
                 out.append(("argument-count-differs", "decoded %d arguments, %d were passed" % (len(dec.get("args") or []), len(c["args"]))))
             else:
@@ -511,6 +554,10 @@ def property_oracle(c, o):
                         shared = any(ptrs[i] & ptrs[j] for j in range(len(ptrs)) if j != i) if i < len(ptrs) else False
                         key = "pointer-shared-between-arguments-of-different-static-types-decoded-wrong" if shared else "argument-value-differs"
                         out.append((key, "argument %d: %s (the plain io round trip of this argument alone into %s is equal)" % (i, d[:160], orc["ty"])))
+                    if orc.get("sig") and dec["args"][i].get("sig") and dec["args"][i]["sig"] != orc["sig"] and not orc.get("err"):
+                        out.append(("argument-dynamic-type-differs-from-the-service-codec-options",
+                                    "argument %d was decoded as %s; the plain io decoder with the service codec's options %s gives %s"
+                                    % (i, dec["args"][i]["sig"][:120], opts_sx(c["sopts"], True), orc["sig"][:120])))
                     w = c["want"][i]
                     if w >= 0 and o["type_names"][w] != "interface {}" and dec["args"][i]["ty"] != o["type_names"][w]:
                         out.append(("argument-type-differs", "argument %d decoded as %s, parameter type %s" % (i, dec["args"][i]["ty"], o["type_names"][w])))
@@ -556,6 +603,17 @@ def property_oracle(c, o):
                not any(e["v"].startswith("ERR") for e in (o.get("or_rhdrs") or [])):
                 out.append(("client-decode-error:" + norm(cd.get("err", "")), "client codec Decode failed on the service codec's response: " + cd.get("err", "")[:200]))
         else:
+            if c["codec"] == "hprose":
+                for i, (got, orc) in enumerate(zip(cd.get("results") or [], o.get("or_res") or [])):
+                    if orc.get("sig") and got.get("sig") and got["sig"] != orc["sig"] and not orc.get("err"):
+                        out.append(("result-dynamic-type-differs-from-the-client-codec-options",
+                                    "result %d was decoded as %s; the plain io decoder with the client codec's options %s gives %s"
+                                    % (i, got["sig"][:120], opts_sx(c["copts"], False), orc["sig"][:120])))
+                gs = dict((e["k"], e["v"]) for e in (cd.get("hdr_sigs") or []))
+                for e in (o.get("or_rhdr_sigs") or []):
+                    if e["k"] in gs and gs[e["k"]] != e["v"]:
+                        out.append(("header-dynamic-type-differs-from-the-client-codec-options",
+                                    "response header %s was decoded as %s; with the client codec's options it is %s" % (e["k"], gs[e["k"]][:120], e["v"][:120])))
             for i, (d, orc) in enumerate(zip(cd.get("eq") or [], o.get("or_res") or [])):
                 if d and solo_ok(orc):
                     ptrs = [set(re.findall(r"\(ptr (\d+)\)", sx)) for sx in (o.get("res_sx") or [])]
